@@ -26,6 +26,12 @@ def make_cases(ctx, n_general, n_table, n_pal, n_multi):
     for _ in range(n_multi):
         img, fr = pl.gen_modular_image(ctx.rng, {"multi_group": True})
         cases.append(("multi-group", img, fr))
+    for _ in range(max(12, n_multi)):
+        img, fr, kind = pl.gen_dimshift_image(ctx.rng)
+        cases.append((kind, img, fr))
+    for _ in range(max(12, n_multi)):
+        img, fr, kind = pl.gen_lz_const_channel_image(ctx.rng)
+        cases.append((kind, img, fr))
     return cases
 
 
@@ -46,6 +52,18 @@ def compare(ctx, kind, line, enc, dec_line, opts=""):
         return False
     got = [(c[1], c[2], c[3]) for c in kfs[0]]
     kinds = {c[0] for c in kfs[0]}
+    if kind.startswith("ec-dim-shift"):
+        # channels stored at reduced resolution come back upsampled (floats): compare the others
+        iw, ih = exp[0][0], exp[0][1]
+        keep = [k for k, e in enumerate(exp) if (e[0], e[1]) == (iw, ih)]
+        if len(got) != len(exp) or any(kfs[0][k][0] != "i" for k in keep):
+            ctx.violation("valid-stream-rejected", dec_line[:200], replay, key="rejected:" + kind)
+            return False
+        bad = next((k for k in keep if got[k] != exp[k]), None)
+        if bad is not None:
+            ctx.violation("decoded-samples-differ-from-encoded", {"first_bad_channel": bad}, replay, key="samples:" + kind)
+            return False
+        return True
     if kinds != {"i"}:
         ctx.failed_obligations.append(f"harness returned non-integer buffers for a single Modular frame ({kinds})")
         return False
@@ -126,7 +144,8 @@ def run(ctx):
             ctx.count("path:" + p)
         d = d or "crash"
         st0, kf0 = pl.parse_img_output(d) if d.startswith("ok") else (d, None)
-        same = kf0 and isinstance(kf0[0], list) and [(c[1], c[2], c[3]) for c in kf0[0]] == r[1][0]["chans"]
+        same = kf0 and isinstance(kf0[0], list) and ([(c[1], c[2], c[3]) for c in kf0[0]] == r[1][0]["chans"]
+                                                       or kind.startswith("ec-dim-shift"))
         if not same:
             # confirm in a fresh process before reporting (a loaded machine can cut a batch short)
             d2 = run_lines_robust([ctx.harness_bin("img")], [f"decode {r[0]}"], per_line_timeout=120)[0] or "crash"
